@@ -1,6 +1,6 @@
 (* C08 -- Blocks render independently, in order (partial: see MANIFEST level text). *)
 From Rimu Require Import Base Unicode Regex RegexAnalysis RegexParse Str Types Tables Guards State Inline Block
-  Frame FrameBlock FrameInst OptionsLemmas MiscLemmas MoreLemmas Plain TableFacts PlainDoc Lines.
+  Frame FrameBlock FrameInst OptionsLemmas MiscLemmas MoreLemmas Plain TableFacts PlainDoc Lines RegexSem MatchLemmas MatchExact.
 
 (* the block loop emits the rendering of the first block followed by the rendering of the rest,
    from the state and reader the first block left *)
@@ -59,3 +59,26 @@ Example C08_ex :
   | Ok (html, _) => str_eqb html ($"<h2>H</h2>" ++ [10] ++ $"<p>p1</p>" ++ [10] ++ $"<div class=""c""><p>in</p></div>" ++ [10] ++ $"<p>p2</p>")
   | _ => false end = true.
 Proof. vm_compute. reflexivity. Qed.
+
+(* dispatch is "the first rule whose pattern has a match on the line": the executable matcher of the model finds a match exactly
+   when one exists in the declarative semantics [mx] (anchors, word boundaries, both look-aheads, repetition bounds all
+   constrained) -- soundness and completeness of the backtracking matcher, for every pattern whose repetition bodies cannot match
+   the empty string and whose look-aheads hold no group; 79 of the 82 generated patterns are of that kind *)
+Theorem C08_matcher_sound_and_complete : forall r, wf_exact r = true -> soundX r (exec r) /\ completeX r (exec r).
+Proof. exact exec_exact. Qed.
+Print Assumptions C08_matcher_sound_and_complete.
+
+Theorem C08_match_iff : forall r i p rest, wf_exact (re_ast r) = true ->
+  (match_at r i p rest <> None <-> exists s', mx (re_ast r) (mkSt i p rest []) s').
+Proof. exact match_at_iff. Qed.
+Print Assumptions C08_match_iff.
+
+Theorem C08_search_complete : forall r pre rest s', wf_exact (re_ast r) = true ->
+  mx (re_ast r) (mkSt (lenN pre) (last_of None pre) rest []) s' -> re_search r (pre ++ rest) <> None.
+Proof. exact re_search_complete. Qed.
+Print Assumptions C08_search_complete.
+
+Theorem C08_patterns_exact :
+  forallb (fun nr => wf_exact (re_ast (snd nr)) || mem (fst nr) exact_exceptions) all_regexes = true.
+Proof. exact generated_patterns_exact. Qed.
+Print Assumptions C08_patterns_exact.
